@@ -125,6 +125,9 @@ def make_plan(seed: int, tier: str, index: int) -> dict[str, Any]:
     schedule: dict[str, Any] = {"mode": "sequential", "seed": 0, "p_boundary": 0.0}
     if n_clients > 1:
         schedule = {"mode": "geometric", "seed": s.getrandbits(32), "gap": s.choice([5, 30, 200, 1000])}
+        if s.random() < 0.35:
+            schedule = {"mode": "writes", "seed": s.getrandbits(32), "p": s.choice([0.1, 0.3, 0.6]),
+                        "hold": s.choice([20, 200, 1000, 4000])}
     return {"property": PROP, "seed": seed, "headers": headers, "victim": vname, "damage": dkind,
             "F": gen.render_sections(secs), "D": gen.render_sections(dsecs), "clients": clients,
             "schedule": schedule}
